@@ -107,11 +107,19 @@ Definition nostart (x : ms_obs) : Prop :=
 Lemma GOOD_nostart h o : Forall nostart o -> GOOD h o.
 Proof.
   intros F o1 x o2 H. subst o. apply Forall_app in F as [_ F]. inversion F; subst.
-  destruct x as [| | | | | | | | | | | |? [?|]|]; cbn in *; auto; contradiction.
+  destruct x; cbn in *; auto; try contradiction;
+    repeat match goal with
+           | u : option ms_time |- _ => destruct u; cbn in *; auto; try contradiction
+           end.
 Qed.
 
 Lemma local_nostart o : Forall local o -> Forall nostart o.
-Proof. apply Forall_impl. intros x; destruct x as [| | | | | | | | | | | |? [?|]|]; cbn; auto. Qed.
+Proof.
+  apply Forall_impl. intros x; destruct x; cbn in *; auto; try contradiction;
+    repeat match goal with
+           | u : option ms_time |- _ => destruct u; cbn in *; auto; try contradiction
+           end.
+Qed.
 
 (* ================================================================================================
    2. The invariant
@@ -506,7 +514,10 @@ Proof.
   intros G F o1 y o2 H. destruct o1 as [|z o1]; cbn [app] in H; inversion H; subst.
   - rewrite app_nil_r. exact G.
   - apply Forall_app in F as [_ F]. inversion F; subst.
-    destruct y as [| | | | | | | | | | | |? [?|]|]; cbn in *; auto; contradiction.
+    destruct y; cbn in *; auto; try contradiction;
+    repeat match goal with
+           | u : option ms_time |- _ => destruct u; cbn in *; auto; try contradiction
+           end.
 Qed.
 
 (* from the flags of the chosen association to the guard over the history *)
